@@ -439,6 +439,11 @@ class Projector:
                 if lost or lost_comments:
                     kept_ok = False
                     self.notes.append(f"deps: lost from {store_rel}: {list(lost)[:3]} {list(lost_comments)[:3]}")
+                # unrelated content includes the line endings of the lines that were not edited
+                crlf_before, crlf_after = pre_text.count("\r\n"), new_text.count("\r\n")
+                if crlf_before >= 2 and crlf_after < crlf_before - 1:
+                    kept_ok = False
+                    self.notes.append(f"deps: {store_rel} had {crlf_before} CRLF line endings, {crlf_after} are left")
                 for w in e.get("wanted") or []:
                     name = manifests.norm(manifests.Requirement(w).name)
                     nb = sum(1 for r in before_reqs if r[0] == name)
